@@ -62,16 +62,26 @@ ClockSpansOf(sched) == IF Len(sched.cs) = 0 THEN <<DefaultClockSpan>> ELSE sched
 \* length of the span in minutes; e < s means the span crosses midnight
 SpanMinutes(cs) == IF cs.e >= cs.s THEN cs.e - cs.s ELSE 1440 - (cs.s - cs.e)
 Parts(cs)       == IF cs.split <= 1 \/ cs.s = cs.e THEN 1 ELSE cs.split
-\* "/N" splits the span into N equal parts; only defined here when N divides the span
-SplitDefined(cs) == SpanMinutes(cs) % Parts(cs) = 0
-PartMinutes(cs)  == SpanMinutes(cs) \div Parts(cs)
+\* "/N" splits the span into N consecutive parts.  Part i (0-based) of A-B/N is
+\* [A + i*(B-A)/N, A + (i+1)*(B-A)/N] at the granularity of the clock, which is one minute:
+\* its start is truncated to a whole minute and its length is (B-A)/N truncated to whole
+\* minutes (this is what timeutil.ClockSpan.ClockSpans computes: an exact step, clocks
+\* truncated to minutes).  When N divides the span the parts tile it exactly; otherwise they
+\* leave gaps of less than a minute.  In every case all parts lie inside [A, B].
+SplitDefined(cs) == SpanMinutes(cs) % Parts(cs) = 0           \* (exact tiling; informational)
+PartStartMin(cs, i) == cs.s + (i * SpanMinutes(cs)) \div Parts(cs)
+PartEndMin(cs, i)   == PartStartMin(cs, i) + SpanMinutes(cs) \div Parts(cs)
 
 \* the i-th part (0-based) of clock span cs anchored on day d, in seconds.  A window is just
 \* [s, e]: whether the event is spread ("~") inside it or placed at its start ("-") does not
 \* matter to the property, which only asks for the attempt to fall inside the window.
 PartWindow(cs, d, i) ==
-    [s |-> d * DAY + (cs.s + i * PartMinutes(cs)) * MIN,
-     e |-> d * DAY + (cs.s + (i + 1) * PartMinutes(cs)) * MIN]
+    [s |-> d * DAY + PartStartMin(cs, i) * MIN,
+     e |-> d * DAY + PartEndMin(cs, i) * MIN]
+
+\* every part lies inside the configured span
+PartsInsideSpan(cs) ==
+    \A i \in 0..(Parts(cs) - 1) : PartStartMin(cs, i) >= cs.s /\ PartEndMin(cs, i) <= cs.s + SpanMinutes(cs)
 
 WindowsOn(sched, d) ==
     UNION { {PartWindow(cs, d, i) : i \in 0..(Parts(cs) - 1)} : cs \in Range(ClockSpansOf(sched)) }
